@@ -924,16 +924,277 @@ Section Text.
   Qed.
 End Text.
 
-(* ================================================================== Part D: the pinned tables; what is NOT true *)
-(* The unrestricted statement: ANY non-empty white-space run between the two words of `not in` and after it.
-   `gaps_ok`: all runs are white space, non-empty between tokens.  `notin_white`: the run inside `not in`
-   is a non-empty white-space run. *)
+(* ================================================================== Part E: every token the printer emits has a spelling *)
+Section ExprInd.
+  Variable P : expr -> Prop.
+  Hypothesis H : forall e, Forall P (children e) -> P e.
+  Lemma expr_ind_children : forall e, P e.
+  Proof.
+    fix IH 1. intro e. apply H.
+    destruct e; cbn [children]; try (repeat constructor; apply IH).
+    - constructor; [apply IH|]. destruct from as [f|], to as [t|]; cbn; repeat constructor; apply IH.
+    - constructor; [apply IH|]. induction args as [|x r IHr]; constructor; [apply IH | exact IHr].
+    - induction args as [|x r IHr]; constructor; [apply IH | exact IHr].
+    - induction args as [|x r IHr]; constructor; [apply IH | exact IHr].
+    - induction es as [|x r IHr]; constructor; [apply IH | exact IHr].
+    - induction pairs as [|x r IHr]; constructor; [apply IH | exact IHr].
+  Qed.
+End ExprInd.
+
+Section TreeTokens.
+  Variables uni_letter uni_digit uni_space : Z -> bool.
+  Variable g : grammar.
+  Variable fmt_int : Z -> string.
+  Variable fmt_float : float -> string.
+  Notation pre_spell := (pre_spell uni_letter uni_digit uni_space).
+  Notation pre_spell_all := (pre_spell_all uni_letter uni_digit uni_space).
+  Notation lexable := (lexable uni_letter uni_digit uni_space).
+  Notation spellable := (spellable uni_letter uni_digit uni_space).
+  Notation tt := (tree_textable uni_letter uni_digit uni_space fmt_int fmt_float).
+  Notation pr := (pr g fmt_int fmt_float).
+  Notation print_any := (print_any g fmt_int fmt_float).
+
+  Definition spb (tk : token) : bool := match pre_spell tk with Some _ => true | None => false end.
+
+  Lemma spb_mk : forall l k v, spb (mkTok l k v) = spellable k v.
+  Proof. reflexivity. Qed.
+
+  (* every operator token `not` is followed, inside the list, by a token other than the operator `in` *)
+  Fixpoint nif (l : list token) : bool :=
+    match l with
+    | [] => true
+    | t :: r =>
+        (if is_op_tok "not" t then match r with t2 :: _ => negb (is_op_tok "in" t2) | [] => false end else true) && nif r
+    end.
+  Definition first_ok (l : list token) : bool := match l with t :: _ => negb (is_op_tok "in" t) | [] => false end.
+  Definition Wk (l : list token) : bool := forallb spb l && nif l.
+  Definition Gd (l : list token) : bool := Wk l && first_ok l.
+
+  Lemma nif_app : forall A B, nif A = true -> nif B = true -> nif (A ++ B) = true.
+  Proof.
+    induction A as [|t r IH]; intros B HA HB; [exact HB|]. cbn [app nif] in *.
+    apply andb_true_iff in HA. destruct HA as [H1 H2]. rewrite (IH B H2 HB), andb_true_r.
+    destruct (is_op_tok "not" t); [|reflexivity]. destruct r; [discriminate H1|exact H1].
+  Qed.
+
+  Lemma Wk_app : forall A B, Wk A = true -> Wk B = true -> Wk (A ++ B) = true.
+  Proof.
+    intros A B HA HB. unfold Wk in *. apply andb_true_iff in HA. destruct HA as [A1 A2].
+    apply andb_true_iff in HB. destruct HB as [B1 B2]. rewrite forallb_app, A1, B1, (nif_app A B A2 B2). reflexivity.
+  Qed.
+
+  Lemma Gd_Wk : forall A, Gd A = true -> Wk A = true.
+  Proof. intros A H. unfold Gd in H. apply andb_true_iff in H. apply H. Qed.
+
+  Lemma Gd_app : forall A B, Gd A = true -> Wk B = true -> Gd (A ++ B) = true.
+  Proof.
+    intros A B HA HB. unfold Gd in *. apply andb_true_iff in HA. destruct HA as [A1 A2].
+    rewrite (Wk_app A B A1 HB). destruct A; [discriminate A2|exact A2].
+  Qed.
+
+  Lemma Wk_cons : forall t X, spb t = true -> is_op_tok "not" t = false -> Wk X = true -> Wk (t :: X) = true.
+  Proof.
+    intros t X S N H. unfold Wk in *. cbn [forallb nif]. rewrite S, N. exact H.
+  Qed.
+
+  Lemma Gd_cons : forall t X, spb t = true -> is_op_tok "not" t = false -> is_op_tok "in" t = false ->
+    Wk X = true -> Gd (t :: X) = true.
+  Proof. intros t X S N I H. unfold Gd. rewrite (Wk_cons t X S N H). cbn [first_ok]. rewrite I. reflexivity. Qed.
+
+  Lemma Wk_op_cons : forall t X, spb t = true -> Gd X = true -> Wk (t :: X) = true.
+  Proof.
+    intros t X S H. unfold Gd, Wk in *. apply andb_true_iff in H. destruct H as [H F].
+    apply andb_true_iff in H. destruct H as [A B]. cbn [forallb nif]. rewrite S, A, B. cbn [andb].
+    destruct (is_op_tok "not" t); [|reflexivity]. destruct X; [discriminate F|]. cbn [first_ok] in F. rewrite F. reflexivity.
+  Qed.
+
+  Lemma Gd_op_cons : forall t X, spb t = true -> is_op_tok "in" t = false -> Gd X = true -> Gd (t :: X) = true.
+  Proof. intros t X S I H. unfold Gd at 1. rewrite (Wk_op_cons t X S H). cbn [first_ok]. rewrite I. reflexivity. Qed.
+
+  Lemma Gd_wrap : forall k B, Gd B = true -> Gd (wrap k B) = true.
+  Proof.
+    induction k as [|k IH]; intros B H; [exact H|]. cbn [wrap].
+    apply Gd_cons; try reflexivity. apply Wk_app; [apply Gd_Wk, IH, H|reflexivity].
+  Qed.
+
+  Lemma Wk_pr_tail : forall f l, (forall i x, In x l -> Gd (f i x) = true) -> forall i, Wk (pr_tail f i l) = true.
+  Proof.
+    intros f. induction l as [|x r IH]; intros H i; [reflexivity|]. cbn [pr_tail].
+    apply Wk_cons; try reflexivity. apply Wk_app; [apply Gd_Wk, H; left; reflexivity|].
+    apply IH. intros j y Hy. apply H. right. exact Hy.
+  Qed.
+
+  Lemma Wk_pr_seq : forall f l, (forall i x, In x l -> Gd (f i x) = true) -> forall i, Wk (pr_seq f i l) = true.
+  Proof.
+    intros f [|x r] H i; [reflexivity|]. rewrite pr_seq_cons.
+    apply Wk_app; [apply Gd_Wk, H; left; reflexivity|]. apply Wk_pr_tail. intros j y Hy. apply H. right. exact Hy.
+  Qed.
+
+  Lemma tt_all : forall l,
+    (fix all (l : list expr) : bool := match l with [] => true | x :: r => tt x && all r end) l = forallb tt l.
+  Proof. induction l as [|x r IH]; [reflexivity|]. cbn [forallb]. rewrite <- IH. reflexivity. Qed.
+
+  Definition GoodP (t : expr) : Prop := tt t = true -> forall c cx, Gd (pr c cx t) = true.
+
+  Lemma good_list : forall l, Forall GoodP l -> forallb tt l = true ->
+    forall (c : poracle) i x, In x l -> Gd (pr (sub c i) CTOP x) = true.
+  Proof.
+    intros l HF HT c i x Hx. rewrite Forall_forall in HF. rewrite forallb_forall in HT.
+    apply (HF x Hx (HT x Hx)).
+  Qed.
+
+  Ltac inv_forall := repeat match goal with H : Forall _ (_ :: _) |- _ => inversion H; clear H; subst end.
+  Ltac split_tt H := repeat (let K := fresh "K" in apply andb_true_iff in H; destruct H as [H K]).
+
+  Lemma pr_tokens_good : forall t, GoodP t.
+  Proof.
+    induction t as [t IH] using expr_ind_children. intros HT c cx.
+    rewrite pr_unfold. apply Gd_wrap. generalize (inner_ctx (parens g c cx t) cx). intros cx'.
+    destruct t; cbn [children] in IH; cbn [tree_textable] in HT; rewrite ?tt_all in HT;
+      unfold Printer.body; destruct (ctx_pf cx') as [p0 f0].
+    - (* nil *) apply Gd_cons; reflexivity.
+    - (* ident *) apply Gd_cons; try reflexivity. rewrite spb_mk. exact HT.
+    - (* int *) apply Gd_cons; try reflexivity. rewrite spb_mk. exact HT.
+    - (* float *) apply Gd_cons; try reflexivity. rewrite spb_mk. exact HT.
+    - (* bool *) destruct b; apply Gd_cons; reflexivity.
+    - (* string *) apply Gd_cons; try reflexivity. rewrite spb_mk. exact HT.
+    - (* const *) discriminate HT.
+    - (* unary *) inv_forall. split_tt HT. apply negb_true_iff in K0.
+      apply Gd_op_cons; [rewrite spb_mk; exact HT|unfold is_op_tok; cbn [tkind_of tval tkind_eqb andb]; exact K0|auto].
+    - (* binary *) inv_forall. split_tt HT.
+      apply Gd_app; [auto|]. apply Wk_op_cons; [rewrite spb_mk; exact HT|auto].
+    - (* matches *) inv_forall. split_tt HT.
+      apply Gd_app; [auto|]. apply Wk_op_cons; [reflexivity|auto].
+    - (* property *) inv_forall. split_tt HT.
+      apply Gd_app; [auto|]. apply Wk_cons; [destruct nilsafe; reflexivity|destruct nilsafe; reflexivity|].
+      apply Wk_cons; [rewrite spb_mk; exact HT|reflexivity|reflexivity].
+    - (* index *) inv_forall. split_tt HT.
+      apply Gd_app; [auto|]. apply Wk_cons; try reflexivity. apply Wk_app; [apply Gd_Wk; auto|reflexivity].
+    - (* slice *) destruct from as [x1|], to as [x2|]; cbn [children opt_list app] in IH; inv_forall; split_tt HT; cbn [app];
+        (apply Gd_app; [solve [auto]|]); (apply Wk_cons; try reflexivity);
+        repeat first [ apply Wk_app; [apply Gd_Wk; solve [auto]|] | apply Wk_cons; try reflexivity ]; reflexivity.
+    - (* method *) inv_forall. split_tt HT.
+      apply Gd_app; [auto|]. apply Wk_cons; [destruct nilsafe; reflexivity|destruct nilsafe; reflexivity|].
+      apply Wk_cons; [rewrite spb_mk; exact HT|reflexivity|]. apply Wk_cons; try reflexivity.
+      apply Wk_app; [|reflexivity]. apply Wk_pr_seq. intros i x Hx. eapply good_list; eauto.
+    - (* function *) split_tt HT. apply Gd_cons; [rewrite spb_mk; exact HT|reflexivity|reflexivity|].
+      apply Wk_cons; try reflexivity. apply Wk_app; [|reflexivity]. apply Wk_pr_seq. intros i x Hx. eapply good_list; eauto.
+    - (* builtin *) split_tt HT. apply Gd_cons; [rewrite spb_mk; exact HT|reflexivity|reflexivity|].
+      apply Wk_cons; try reflexivity. apply Wk_app; [|reflexivity]. apply Wk_pr_seq. intros i x Hx. eapply good_list; eauto.
+    - (* closure *) inv_forall. apply Gd_cons; try reflexivity. apply Wk_app; [apply Gd_Wk; auto|reflexivity].
+    - (* pointer *) apply Gd_cons; reflexivity.
+    - (* cond *) inv_forall. split_tt HT.
+      apply Gd_app; [auto|]. apply Wk_cons; try reflexivity. apply Wk_app; [apply Gd_Wk; auto|].
+      apply Wk_cons; try reflexivity. apply Gd_Wk; auto.
+    - (* array *) apply Gd_cons; try reflexivity. apply Wk_app; [|reflexivity]. apply Wk_pr_seq. intros i x Hx. eapply good_list; eauto.
+    - (* map *) apply Gd_cons; try reflexivity. apply Wk_app; [|reflexivity]. apply Wk_pr_seq. intros i x Hx. eapply good_list; eauto.
+    - (* pair *) inv_forall. split_tt HT.
+      assert (V : Wk (colon :: pr (sub c 1%nat) CTOP t2) = true) by (apply Wk_cons; try reflexivity; apply Gd_Wk; auto).
+      destruct (key_bare a t1) eqn:KB.
+      + destruct t1; try discriminate KB. cbn [tree_textable] in HT.
+        apply Gd_app; [|exact V]. apply Gd_cons; try reflexivity. rewrite spb_mk. exact HT.
+      + apply Gd_app; [|exact V]. apply Gd_cons; try reflexivity. apply Wk_app; [apply Gd_Wk; auto|reflexivity].
+  Qed.
+
+  Lemma spell_all_app : forall l, forallb spb l = true -> exists ps, pre_spell_all (l ++ [eof_at noloc]) = Some ps.
+  Proof.
+    induction l as [|t r IH]; intros H.
+    - exists []. reflexivity.
+    - cbn [forallb] in H. apply andb_true_iff in H. destruct H as [Ht Hr]. destruct (IH Hr) as (ps & E).
+      unfold spb in Ht. destruct (pre_spell t) as [p|] eqn:Ep; [|discriminate Ht].
+      exists (p :: ps). cbn [app]. destruct (r ++ [eof_at noloc]) as [|t2 r'] eqn:E2; [destruct r; discriminate E2|].
+      change (pre_spell_all (t :: t2 :: r')) with
+        (match pre_spell t, pre_spell_all (t2 :: r') with Some p, Some ps0 => Some (p :: ps0) | _, _ => None end).
+      rewrite Ep, E. reflexivity.
+  Qed.
+
+  Lemma nif_free : forall l, nif l = true -> not_in_free (l ++ [eof_at noloc]) = true.
+  Proof.
+    induction l as [|t r IH]; intros H; [reflexivity|]. cbn [nif] in H. apply andb_true_iff in H. destruct H as [H1 H2].
+    cbn [app not_in_free]. rewrite (IH H2), andb_true_r.
+    destruct (is_op_tok "not" t); [|reflexivity]. destruct r; [discriminate H1|exact H1].
+  Qed.
+
+  (* the lemma the text-level theorems need of the printer: for a textable tree, whatever the parentheses *)
+  Theorem textable_tokens : forall t c, tt t = true ->
+    lexable (print_any c t) = true /\ not_in_free (print_any c t) = true.
+  Proof.
+    intros t c HT. pose proof (pr_tokens_good t HT c CTOP) as H. unfold Gd, Wk in H.
+    apply andb_true_iff in H. destruct H as [H _]. apply andb_true_iff in H. destruct H as [A B].
+    unfold Printer.print_any. split.
+    - unfold Render.lexable. destruct (spell_all_app _ A) as (ps & E). rewrite E. reflexivity.
+    - apply nif_free. exact B.
+  Qed.
+End TreeTokens.
+
+(* ================================================================== Part D: the theorems in their final form *)
+Section Final.
+  Variables uni_letter uni_digit uni_space : Z -> bool.
+  Variable g : grammar.
+  Variable o : oracles.
+  Variable fmt_int : Z -> string.
+  Variable fmt_float : float -> string.
+  Hypothesis G : wf_grammar g = true.
+  Notation printable := (printable g fmt_int fmt_float o).
+  Notation print_any := (print_any g fmt_int fmt_float).
+  Notation textable := (tree_textable uni_letter uni_digit uni_space fmt_int fmt_float).
+  Notation render := (render uni_letter uni_digit uni_space).
+  Notation parse_text := (parse_text uni_letter uni_digit uni_space).
+  Notation layout_good := (layout_good uni_letter uni_digit uni_space).
+
+  (* white space between all tokens, U+0020 inside and after `not in` *)
+  Definition white (L : layout) (toks : list token) : bool := gaps_ok L 0 toks && notin_spaced L 0 toks.
+
+  Lemma white_good : forall c t L, textable t = true -> white L (print_any c t) = true ->
+    layout_good L (print_any c t) = true.
+  Proof.
+    intros c t L HT HW. unfold white in HW. apply andb_true_iff in HW. destruct HW as [H1 H2].
+    destruct (textable_tokens uni_letter uni_digit uni_space g fmt_int fmt_float t c HT) as [A B].
+    apply roomy_good; assumption.
+  Qed.
+
+  Theorem text_roundtrip_tree : forall c t L,
+    printable c t -> textable t = true -> white L (print_any c t) = true ->
+    exists t', parse_text g o (render L (print_any c t)) = ROk t' /\ erase_loc t' = erase_loc t.
+  Proof.
+    intros c t L W HT HW. apply (text_roundtrip uni_letter uni_digit uni_space g o fmt_int fmt_float G c t L W).
+    apply white_good; assumption.
+  Qed.
+
+  Theorem whitespace_irrelevant_tree : forall c t L1 L2,
+    printable c t -> textable t = true -> white L1 (print_any c t) = true -> white L2 (print_any c t) = true ->
+    exists t1 t2,
+      parse_text g o (render L1 (print_any c t)) = ROk t1 /\
+      parse_text g o (render L2 (print_any c t)) = ROk t2 /\
+      erase_loc t1 = erase_loc t2 /\ erase_loc t1 = erase_loc t.
+  Proof.
+    intros c t L1 L2 W HT H1 H2.
+    apply (whitespace_irrelevant uni_letter uni_digit uni_space g o fmt_int fmt_float G c t L1 L2 W); apply white_good; assumption.
+  Qed.
+
+  Theorem redundant_parentheses_tree : forall c1 c2 t L1 L2,
+    printable c1 t -> printable c2 t -> textable t = true ->
+    white L1 (print_any c1 t) = true -> white L2 (print_any c2 t) = true ->
+    exists t1 t2,
+      parse_text g o (render L1 (print_any c1 t)) = ROk t1 /\
+      parse_text g o (render L2 (print_any c2 t)) = ROk t2 /\
+      erase_loc t1 = erase_loc t2 /\ erase_loc t1 = erase_loc t.
+  Proof.
+    intros c1 c2 t L1 L2 W1 W2 HT H1 H2.
+    apply (redundant_parentheses_text uni_letter uni_digit uni_space g o fmt_int fmt_float G c1 c2 t L1 L2 W1 W2); apply white_good; assumption.
+  Qed.
+End Final.
+
+(* ---- what is NOT true of the pinned lexer (known finding C11-notin-spacing).
+   The unrestricted statement: ANY non-empty white-space run between the two words of `not in` and after it
+   (`gaps_ok`: all runs are white space, non-empty between tokens; `notin_white`: the run inside `not in` is a
+   non-empty white-space run). *)
 Definition text_full_statement : Prop :=
   forall (uni_letter uni_digit uni_space : Z -> bool) (o : oracles) (fmt_int : Z -> string) (fmt_float : float -> string)
          (c : poracle) (t : expr) (L : layout),
     let toks := print_any gen_grammar fmt_int fmt_float c t in
     printable gen_grammar fmt_int fmt_float o c t ->
-    lexable uni_letter uni_digit uni_space toks = true -> not_in_free toks = true ->
+    tree_textable uni_letter uni_digit uni_space fmt_int fmt_float t = true ->
     gaps_ok L 0 toks = true -> notin_white L 0 toks = true ->
     exists t', parse_text uni_letter uni_digit uni_space gen_grammar o (render uni_letter uni_digit uni_space L toks) = ROk t' /\
                erase_loc t' = erase_loc t.
@@ -957,17 +1218,17 @@ Proof.
   vm_compute in E. discriminate E.
 Qed.
 
-(* the partial statement: the same with U+0020 only inside and after `not in` (`notin_spaced`) *)
+(* the partial statement: the same with U+0020 only inside and after `not in` (`notin_spaced`, decidable) *)
 Theorem text_partial : forall (uni_letter uni_digit uni_space : Z -> bool) (o : oracles) (fmt_int : Z -> string) (fmt_float : float -> string)
     (c : poracle) (t : expr) (L : layout),
   let toks := print_any gen_grammar fmt_int fmt_float c t in
   printable gen_grammar fmt_int fmt_float o c t ->
-  lexable uni_letter uni_digit uni_space toks = true -> not_in_free toks = true ->
+  tree_textable uni_letter uni_digit uni_space fmt_int fmt_float t = true ->
   gaps_ok L 0 toks = true -> notin_spaced L 0 toks = true ->
   exists t', parse_text uni_letter uni_digit uni_space gen_grammar o (render uni_letter uni_digit uni_space L toks) = ROk t' /\
              erase_loc t' = erase_loc t.
 Proof.
-  intros ul ud us o fi ff c t L toks W H1 H2 H3 H4.
-  apply (text_roundtrip ul ud us gen_grammar o fi ff gen_grammar_wf c t L W).
-  apply roomy_good; assumption.
+  intros ul ud us o fi ff c t L toks W HT H3 H4.
+  apply (text_roundtrip_tree ul ud us gen_grammar o fi ff gen_grammar_wf c t L W HT).
+  unfold white. fold toks. rewrite H3, H4. reflexivity.
 Qed.
